@@ -13,6 +13,7 @@ CONSTANTS
   BlockLen = 0
   StaleCache = FALSE
   KeyBeforeTranslate = FALSE
+  ConvMemo = FALSE
   Pool <- MCPool
   QNames <- MCQNames
 SPECIFICATION CSpec
